@@ -37,11 +37,15 @@ Definition function_or_property (labels : list string) : member :=
 Definition inspector_attribute (parent_is_class : bool) : member :=
   MObj GAttribute [if parent_is_class then "class" else "module"].
 
+(* Inspector.handle_function: `if node.is_coroutine: labels.add("async")` (labels is a set) *)
+Definition with_async (f : features) (ls : list string) : list string :=
+  if f PIsCoroutine && negb (mem_str "async" ls) then ls ++ ["async"] else ls.
+
 Definition inspect_member (f : features) : member :=
   match lookup_handler (inspector_okind f) handlers with
   | Some HModule => MObj GModule []
   | Some HClass => MObj GClass []
-  | Some (HFunc ls) => function_or_property ls
+  | Some (HFunc ls) => function_or_property (with_async f ls)
   | Some HAttr => inspector_attribute (f PParentIsClass)
   | None => MErr "no-handler"
   end.
@@ -113,8 +117,8 @@ Definition inspect_child (f : features) (e : alias_env) (cur : list string) (nam
   end.
 
 (* ObjectNode._pick_member: which entries of inspect.getmembers(obj) become children.  _ids holds the ids of the node's
-   object and of all its ancestors' objects; Inspector.get_module builds the ancestors of a submodule as placeholder
-   nodes ObjectNode(None, name=part), so id(None) is among them whenever there is at least one placeholder. *)
+   object and of all its ancestors' objects; the placeholder nodes ObjectNode(None, name=part) that Inspector.get_module
+   builds as the ancestors of a submodule contribute nothing. *)
 Record pick_env := mkPick {
   pk_name : string;
   pk_is_type : bool;            (* member is type *)
@@ -124,17 +128,10 @@ Record pick_env := mkPick {
   pk_placeholders : nat;        (* number of ObjectNode(None) placeholder ancestors *)
   pk_in_vars : bool }.          (* name in vars(obj) *)
 
-Definition in_ids (e : pick_env) : bool := pk_is_ancestor e || (pk_is_none e && (0 <? pk_placeholders e)).
+Definition in_ids (e : pick_env) : bool := pk_is_ancestor e.
 
 Definition pick_member (e : pick_env) : bool :=
   negb (mem_str (pk_name e) exclude_specials) && negb (pk_is_type e) && negb (pk_is_object e) && negb (in_ids e) && pk_in_vars e.
-
-(* what the filter is for: drop special names, type/object, inherited names and cyclic references to a real ancestor *)
-Definition pick_member_intended (e : pick_env) : bool :=
-  negb (mem_str (pk_name e) exclude_specials) && negb (pk_is_type e) && negb (pk_is_object e) && negb (pk_is_ancestor e) && pk_in_vars e.
-
-(* known gap F7 *)
-Definition gap_none_in_submodule (e : pick_env) : bool := pk_is_none e && (0 <? pk_placeholders e).
 
 (* ------------------------------------------------------------------------------------------------ *)
 (* 3. Visitor                                                                                        *)
@@ -341,14 +338,6 @@ Definition skel_eqb (a b : skel) : bool :=
 
 Definition member_gkind (m : member) : option gkind := match m with MObj k _ => Some k | _ => None end.
 
-(* known gap F3: an async def inside a class reaches the method / staticmethod / classmethod rung before the
-   coroutine rung, so the dynamic agent drops the "async" label *)
-Definition gap_async_in_class (d : defform) : bool :=
-  match d with
-  | DFunc SCls true | DStaticM true | DClassM true => true
-  | _ => false
-  end.
-
 (* ------------------------------------------------------------------------------------------------ *)
 (* 5. Parameters                                                                                    *)
 
@@ -361,33 +350,21 @@ Definition to_iparam (p : param) : iparam :=
   mkIP (pname p) (pann p) (pkind p) (match pdef p with DExpr e => Some e | _ => None end).
 Definition inspect_signature (a : arguments) : list iparam := map to_iparam (cpython_signature a).
 
-(* inspect.signature of a bound method (what getattr gives for a classmethod): the first positional parameter is
-   consumed; a leading *args absorbs it; otherwise ValueError('invalid method signature') *)
-Definition bound_signature (s : list iparam) : result (list iparam) :=
-  match s with
-  | [] => Err "ValueError"
-  | p :: r => match ip_kind p with
-              | PO | PK => Ok r
-              | VP => Ok s
-              | KO | VK => Err "ValueError"
-              end
-  end.
-
 (* griffe Parameter as compared by the property: name, kind, annotation, default text, required *)
 Record gparam := mkGP { gp_name : string; gp_ann : option Z; gp_kind : kind; gp_default : dflt }.
 Definition gp_required (p : gparam) : bool := match gp_default p with DNone => true | _ => false end.
 
 (* inspector._convert_parameter *)
 Definition convert_parameter (p : iparam) : gparam :=
-  mkGP (ip_name p) (ip_ann p) (kind_map (ip_kind p)) (match ip_default p with None => DNone | Some e => DExpr e end).
+  mkGP (ip_name p) (ip_ann p) (kind_map (ip_kind p))
+       (match ip_kind p with
+        | VP => DStr "()"
+        | VK => DStr "{}"
+        | _ => match ip_default p with None => DNone | Some e => DExpr e end
+        end).
 
-(* Inspector.handle_function: `except Exception: parameters = None` and Function(parameters=None) stores an empty list *)
-Definition inspector_parameters (bound : bool) (a : arguments) : list gparam :=
-  let s := inspect_signature a in
-  match (if bound then bound_signature s else Ok s) with
-  | Ok s' => map convert_parameter s'
-  | Err _ => []
-  end.
+(* Inspector.handle_function on a function, and on a classmethod through its __func__ *)
+Definition inspector_parameters (a : arguments) : list gparam := map convert_parameter (inspect_signature a).
 
 Definition of_param (p : param) : gparam := mkGP (pname p) (pann p) (pkind p) (pdef p).
 (* Visitor.handle_function: get_parameters (C02) *)
@@ -433,7 +410,8 @@ Definition rstrip (ls : list line) : list line := drop_trailing blank ls.
 (* Docstring.__init__: inspect.cleandoc(value.rstrip()) *)
 Definition docstring_value (ls : list line) : list line := cleandoc (rstrip ls).
 Definition static_doc (v : list line) : list line := docstring_value v.                 (* Visitor._get_docstring *)
-Definition dynamic_doc (v : list line) : list line := docstring_value (cleandoc v).     (* Inspector._get_docstring *)
+Definition dynamic_doc (v : list line) : list line := docstring_value v.                (* Inspector._get_docstring *)
+Definition cleaned_twice (v : list line) : list line := docstring_value (cleandoc v).   (* what a second cleaning would store *)
 Definition first_line_blank (v : list line) : bool := match v with l0 :: _ :: _ => blank l0 | _ => false end.
 
 (* ------------------------------------------------------------------------------------------------ *)
@@ -549,8 +527,7 @@ Definition run_C17 (s : sexp) : sexp :=
       match dec_defform d with
       | Some d' =>
           SList [SList (map (fun p => SStr (prim_name p)) (filter (runtime_features d') all_prims));
-                 enc_member (visitor_member d'); enc_member (inspect_member (runtime_features d'));
-                 of_bool (gap_async_in_class d')]
+                 enc_member (visitor_member d'); enc_member (inspect_member (runtime_features d'))]
       | None => bad_input end
   | SList [SStr "visfunc"; a; ds] =>
       match as_bool a, dec_path ds with
@@ -574,24 +551,21 @@ Definition run_C17 (s : sexp) : sexp :=
       match as_bool t, as_bool o, as_bool a, as_bool z, as_nat k, as_bool v with
       | Some t', Some o', Some a', Some z', Some k', Some v' =>
           let e := mkPick n t' o' a' z' k' v' in
-          SList [of_bool (pick_member e); of_bool (pick_member_intended e); of_bool (gap_none_in_submodule e)]
+          SList [of_bool (pick_member e)]
       | _, _, _, _, _, _ => bad_input end
   | SList [SStr "samecomp"; a; b] =>
       match dec_path a, dec_path b with
       | Some a', Some b' => of_bool (same_components a' b')
       | _, _ => bad_input end
-  | SList [SStr "params"; b; a] =>
-      match as_bool b, dec_arguments a with
-      | Some b', Some a' =>
+  | SList [SStr "params"; a] =>
+      match dec_arguments a with
+      | Some a' =>
           SList [match visitor_parameters a' with
                  | Ok ps => SList [SStr "ok"; SList (map enc_gparam ps)]
                  | Err e => SList [SStr "err"; SStr e] end;
-                 SList (map enc_gparam (inspector_parameters b' a'));
-                 SList (map enc_iparam (inspect_signature a'));
-                 match bound_signature (inspect_signature a') with
-                 | Ok ps => SList [SStr "ok"; SList (map enc_iparam ps)]
-                 | Err e => SList [SStr "err"; SStr e] end]
-      | _, _ => bad_input end
+                 SList (map enc_gparam (inspector_parameters a'));
+                 SList (map enc_iparam (inspect_signature a'))]
+      | None => bad_input end
   | SList [SStr "doc"; v] =>
       match as_list_of dec_line v with
       | Some v' => SList [enc_lines (cleandoc v'); enc_lines (static_doc v'); enc_lines (dynamic_doc v'); of_bool (first_line_blank v')]
